@@ -220,6 +220,7 @@ pub fn items(tier: Tier) -> Vec<Item> {
         for pos in positions(th) {
             add("prop-literal", "EnumProperty", format!("EnumProperty: props(k = {}) at {}", l, pos), en("EnumProperty", "", "", &place(&format!("#[strum(props(k = {}))] X", l), pos)), false);
         }
+        add("prop-literal", "EnumProperty", format!("EnumProperty: props(k = 1, k = {}) (unsupported literal under an already seen key)", l), en("EnumProperty", "", "", &place(&format!("#[strum(props(k = 1, k = {}))] X", l), 1)), false);
         add("prop-literal", "EnumProperty", format!("EnumProperty: props(a = \"s\", k = {}) in a second group", l), en("EnumProperty", "", "", &place(&format!("#[strum(props(a = \"s\"))] #[strum(props(b = 1, k = {}))] X", l), 1)), false);
     }
     add("prop-literal", "EnumProperty", "control: str/int/bool props".into(), en("EnumProperty", "", "", &place("#[strum(props(a = \"s\", b = 1, c = true, d = -5))] X", 1)), true);
